@@ -407,7 +407,7 @@ class C06(SessionProp):
 T_HS = G.Table([
     (10, G.o_connack), (3, G.o_connack_ok), (6, G.o_advance), (5, G.o_fire), (6, G.o_lose), (3, G.o_handlers), (4, G.o_connect),
     (4, G.o_reconnect_noack), (2, G.o_reconnect), (3, G.o_publish), (2, G.o_subscribe), (2, G.o_ack_good),
-    (1, G.o_disconnect), (1, G.o_pingresp),
+    (1, G.o_disconnect), (1, G.o_pingresp), (3, G.o_arm_reconnect), (1, G.o_arm),
 ])
 
 
@@ -668,7 +668,7 @@ T_PERS = G.Table([
     (12, G.o_publish_q12), (3, G.o_publish_q0), (5, G.o_pubrec), (3, G.o_puback), (3, G.o_pubcomp), (3, G.o_ack_good),
     (3, G.o_fire), (2, G.o_window), (1, G.o_advance_small), (3, G.o_lose_reconnect_persist), (1, G.o_lose_reconnect_clean),
     (2, G.o_reconnect_noack), (2, G.o_lose), (2, G.o_connack_ok), (1, G.o_build), (1, G.o_subscribe),
-    (3, G.o_resume_with_publish), (2, o_setid_any),
+    (3, G.o_resume_with_publish), (2, o_setid_any), (2, G.o_arm),
 ])
 POST_PERS = [
     [("build", 0), ("handlers", 0, 7), ("connect", 0, 0, 0, 0), ("rx", 0, "CONNACK", 0, 1), ("publish", 0, 1), ("settle", 0), ("idle", 300.0)],
